@@ -89,25 +89,78 @@ class _FileLock:
             self.fd = None
 
 
-def build_binaries(timeout=1800, quiet=True):
+_BUILT_CLIENT = TARGET_DIR + "/debug/octo-squirrel-client"
+_BUILT_SERVER = TARGET_DIR + "/debug/octo-squirrel-server"
+_snapshot_dir = [None]
+
+
+def _pid_alive(pid):
+    return os.path.isdir("/proc/%d" % pid)
+
+
+def cleanup_stale():
+    """Remove run-<pid>-<n>/ and bin-<pid>/ directories left by driver processes that no longer exist."""
+    try:
+        names = os.listdir(CACHE)
+    except OSError:
+        return
+    for n in names:
+        parts = n.split("-")
+        if parts[0] in ("run", "bin") and len(parts) >= 2 and parts[1].isdigit():
+            if not _pid_alive(int(parts[1])):
+                shutil.rmtree(os.path.join(CACHE, n), ignore_errors=True)
+
+
+def _remove_snapshot():
+    d = _snapshot_dir[0]
+    if d and os.path.isdir(d):
+        shutil.rmtree(d, ignore_errors=True)
+
+
+def _snapshot_binaries():
+    """Hard-link (or copy) the freshly built binaries into bin-<pid>/ so that this driver process
+    keeps using ONE consistent build even if a concurrent run rebuilds /repo meanwhile.
+    Call with the build lock held."""
+    global CLIENT_BIN, SERVER_BIN
+    d = "%s/bin-%d" % (CACHE, os.getpid())
+    shutil.rmtree(d, ignore_errors=True)
+    os.makedirs(d)
+    for src in (_BUILT_CLIENT, _BUILT_SERVER):
+        if not os.access(src, os.X_OK):
+            raise T2Error("binary missing: " + src)
+        dst = os.path.join(d, os.path.basename(src))
+        try:
+            os.link(src, dst)
+        except OSError:
+            shutil.copy2(src, dst)
+    if _snapshot_dir[0] is None:
+        atexit.register(_remove_snapshot)
+    _snapshot_dir[0] = d
+    CLIENT_BIN = d + "/octo-squirrel-client"
+    SERVER_BIN = d + "/octo-squirrel-server"
+
+
+def build_binaries(timeout=1800, quiet=True, build=True):
     """(Re)build client and server from /repo's current working tree (incremental, under a
-    file lock).  Returns {"client": path, "server": path, "seconds": float}."""
+    file lock), then snapshot them for this driver process (CLIENT_BIN / SERVER_BIN point at the
+    snapshot).  build=False only snapshots the existing binaries.
+    Returns {"client": path, "server": path, "seconds": float}."""
     t0 = time.monotonic()
     env = dict(os.environ)
     env["CARGO_NET_OFFLINE"] = "true"
     env["CARGO_TARGET_DIR"] = TARGET_DIR
     cmd = ["cargo", "build", "--offline", "--bins", "-p", "octo-squirrel-client", "-p", "octo-squirrel-server"]
     with _FileLock(CACHE + "/build.lock"):
-        p = subprocess.run(cmd, cwd=REPO, env=env, stdout=subprocess.PIPE, stderr=subprocess.STDOUT,
-                           timeout=timeout)
-    out = p.stdout.decode("utf-8", "replace")
-    if p.returncode != 0:
-        raise T2Error("cargo build failed (exit %d):\n%s" % (p.returncode, out[-4000:]))
-    for b in (CLIENT_BIN, SERVER_BIN):
-        if not os.access(b, os.X_OK):
-            raise T2Error("binary missing after build: " + b)
-    if not quiet:
-        sys.stderr.write(out[-600:])
+        cleanup_stale()
+        if build:
+            p = subprocess.run(cmd, cwd=REPO, env=env, stdout=subprocess.PIPE, stderr=subprocess.STDOUT,
+                               timeout=timeout)
+            out = p.stdout.decode("utf-8", "replace")
+            if p.returncode != 0:
+                raise T2Error("cargo build failed (exit %d):\n%s" % (p.returncode, out[-4000:]))
+            if not quiet:
+                sys.stderr.write(out[-600:])
+        _snapshot_binaries()
     return {"client": CLIENT_BIN, "server": SERVER_BIN, "seconds": round(time.monotonic() - t0, 2)}
 
 
@@ -355,6 +408,7 @@ def install_signal_handlers():
     """Make SIGTERM/SIGINT stop every live deployment before the driver dies (call from main)."""
     def handler(signum, _frame):
         _kill_all_live()
+        _remove_snapshot()
         os._exit(128 + signum)
     for s in (signal.SIGTERM, signal.SIGINT, signal.SIGHUP):
         try:
